@@ -4,7 +4,7 @@
 //!   cfg     = (chars cg max_size? max_seq? threads)
 //!   files   = list of (final_newline lines); line = (raw words); word = (parts clusters)
 //!             parts: byte strings of the regex matches of `split_words`; clusters: (bytes alpha punct)
-//!             of `CharString::split(word, true)`, all computed on normalize(clean(raw)) by the real crate
+//!             of `vh::split_clusters(word, true)`, all computed on normalize(clean(raw)) by the real crate
 //!   perms   = (arrival_picks heap_picks)       arbitrary orders for the model (the code's are unobservable)
 //!   dfile   = bytes of a dictionary file for `load`
 //!   segs    = grapheme segmentation (byte strings) of every candidate key of dfile
@@ -14,7 +14,7 @@ use std::collections::HashMap;
 use std::path::PathBuf;
 use text_utils::dictionary::{Dictionary, DictionaryDistanceMeasure};
 use text_utils::text::{clean, split_words};
-use text_utils::unicode::{normalize, CharString, Character, Normalization};
+use text_utils::unicode::{normalize, Character, Normalization};
 use vh::*;
 
 struct Raw {
@@ -89,7 +89,7 @@ impl C20 {
                     .map(|p| p.into_iter().map(|(s, _)| bytes(s)).collect())
                     .unwrap_or_default(),
             );
-            let cls: Vec<&str> = CharString::split(word, true).collect();
+            let cls: Vec<&str> = vh::split_clusters(word, true).collect();
             let cls = Val::L(
                 cls.into_iter()
                     .map(|c| {
@@ -131,7 +131,7 @@ impl C20 {
         let mut segs: Vec<Val> = vec![];
         for line in r.dfile.split('\n') {
             let key = line.trim().split('\t').next().unwrap_or("");
-            let seg = Val::L(CharString::split(key, true).map(bytes).collect());
+            let seg = Val::L(vh::split_clusters(key, true).map(bytes).collect());
             if !segs.contains(&seg) {
                 segs.push(seg);
             }
@@ -145,7 +145,7 @@ impl C20 {
                     Val::str(q),
                     Val::b(*norm),
                     bytes(&nq),
-                    Val::L(CharString::split(&nq, true).map(bytes).collect()),
+                    Val::L(vh::split_clusters(&nq, true).map(bytes).collect()),
                 ])
             })
             .collect();
